@@ -211,7 +211,9 @@ func (dmx *Demuxer) updateData(ds []*DemuxerData) (d *DemuxerData) {
 
 		// Update program map
 		for _, v := range ds {
-			if v.PAT != nil {
+			// The program association table is the one of the PAT PID: a section with its table id found on another
+			// PID doesn't say where program maps are
+			if v.PAT != nil && v.PID == PIDPAT {
 				for _, pgm := range v.PAT.Programs {
 					// Program number 0 is reserved to NIT
 					if pgm.ProgramNumber > 0 {
